@@ -94,7 +94,25 @@ var levelTpls = []levelTpl{
 		}
 		return []string{valTok(t), valTok(t)}
 	}},
+	{11, "[-n=<num>]...", func() []*Decl {
+		// a scalar option under a repetition: every occurrence is converted, the last one stays (wave 13).
+		// Not part of the default draw (numDefaultTpls): only generators that list it in TreeOpts.Templates use it.
+		return []*Decl{{Kind: KInt, Name: "n num", Def: "1"}}
+	}, func(t *Tape) []string {
+		r := []string{}
+		for i, n := 0, t.Draw(4); i < n; i++ {
+			v := strconv.Itoa(t.Draw(100))
+			r = append(r, [][]string{{"-n", v}, {"--num=" + v}, {"-n" + v}, {"--num", v}, {"-n=" + v}}[t.Draw(5)]...)
+		}
+		return r
+	}},
 }
+
+// numDefaultTpls: the templates a generator draws from when it names none (template 11 was added later and is
+// opt-in, so that the tapes of the other properties read as before)
+const numDefaultTpls = 11
+
+var allTplsAndRepeatedScalar = []int{0, 1, 2, 3, 4, 5, 6, 7, 8, 9, 10, 11, 11}
 
 type TreeOpts struct {
 	MaxDepth  int
@@ -214,7 +232,7 @@ func genTree(t *Tape, o TreeOpts) *TreeCase {
 			} else if o.Templates != nil {
 				tpl = o.Templates[t.Draw(len(o.Templates))]
 			} else {
-				tpl = t.Draw(len(levelTpls))
+				tpl = t.Draw(numDefaultTpls)
 			}
 			c.Spec = levelTpls[tpl].spec
 			c.Decls = levelTpls[tpl].decls()
